@@ -212,6 +212,41 @@ func (e *iterEnv) inUse() int {
 	return n
 }
 
+// closeAfterCancel: the context ends while rows are outstanding and Close is called straight away,
+// while database/sql may still be closing the result set in the background (the driver's close is
+// slow).  Whatever Close reports, when it returns the result set has been closed and the connection
+// is back in the pool: the accounting is read at once, without settling.  (Rows.Close waits for a
+// close in progress, so the unchanged code is deterministic here; only the error value of Close
+// depends on who won, and is not compared.)
+func closeAfterCancel(r *rng, addViol func(violation)) {
+	s := iterScript{hasout: true, runKind: "rows", failK: -1, closeErr: -1}
+	nrows := 1 + r.intn(4)
+	for i := 0; i < nrows; i++ {
+		s.rows = append(s.rows, iterRow{id: 10 + i, ok: true})
+	}
+	e := setupIter(s)
+	defer e.finish()
+	e.f.closeDelay = time.Duration(100+r.intn(400)) * time.Microsecond
+	iter := e.q.Iter()
+	k := r.intn(nrows + 1)
+	for i := 0; i < k; i++ {
+		iter.Next()
+	}
+	e.cancel()
+	if w := r.intn(4); w > 0 {
+		time.Sleep(time.Duration(w*50) * time.Microsecond)
+	}
+	iter.Close()
+	e.f.mu.Lock()
+	opened, closed := e.f.rowsOpened, e.f.rowsClosed
+	e.f.mu.Unlock()
+	inuse := e.db.PlainDB().Stats().InUse
+	if opened != closed || inuse != 0 {
+		addViol(violation{"C13", "close-returned-before-the-result-set-was-released", hx(fmt.Sprintf("rows=%d next=%d cancel close", nrows, k)),
+			fmt.Sprintf("context cancelled after %d of %d rows, then Close: when Close returned opened=%d closed=%d connections in use=%d", k, nrows, opened, closed, inuse)})
+	}
+}
+
 func (e *iterEnv) waitRowsClosed() {
 	deadline := time.Now().Add(2 * time.Second)
 	for time.Now().Before(deadline) {
@@ -580,6 +615,12 @@ func cmdIter(args []string) int {
 			}
 		}
 		rec(nil)
+	}
+	for i := 0; i < *n/4+20; i++ {
+		currentCase.Store("close after cancel")
+		caseStart.Store(time.Now().UnixNano())
+		closeAfterCancel(r, addViol)
+		st.Kinds["close-after-cancel"]++
 	}
 	for i := 0; i < *n; i++ {
 		s := genScript(r)
